@@ -9,6 +9,7 @@
   Property theorems only; helper lemmas live in Lemmas/MeshHeap.lean.
 -/
 import PolyVerif.Lemmas.MeshHeap
+import PolyVerif.Gen.C01Stores
 
 namespace PolyVerif
 namespace C01
@@ -151,6 +152,22 @@ theorem derivations_commute_partial (E : Env α) (s : State κ α) (vs : s.Valid
     exact op_frame E s vs o1 c1 h1 _ a1 r (vs r hr)
   · rw [op_frame E _ vs2 o1 c1 h21 _ a21 r ((vs r hr).mono f2)]
     exact op_frame E s vs o2 c2 h2 _ a2 r (vs r hr)
+
+/-! ### second tie (engine F): the store sites of the source, regenerated on every run -/
+
+/-- **store_sites_fresh.** Every syntactic store site (`x[i] = v`, `append(x, …)`, `copy(x, …)`, `delete`, `sort.*`, field
+    stores through pointers) of modeling/mesh.go, tri/line/point.go, meshops, repeat, primitives and the ply/obj/stl writers
+    — `Gen.C01Stores.sites`, extracted from the working tree by go/facts/c01.go before this file is compiled — stores into
+    memory that the extractor's conservative provenance analysis shows to be allocated by the same call.  This is the
+    source-level counterpart of `op_writes_fresh_only`; an in-place write added to these files makes this theorem fail. -/
+theorem store_sites_fresh : ∀ s ∈ Gen.C01Stores.sites, s.fresh = true := by decide +kernel
+
+/-- the scan is not vacuous: it saw `Append`, `appendData`, the weld, an attribute transformer and a primitive -/
+theorem store_sites_cover :
+    100 ≤ Gen.C01Stores.sites.length ∧
+    (["Mesh.Append", "appendData", "Mesh.WeldByFloat3Attribute", "Mesh.Translate", "Unweld", "RemovedUnreferencedVertices",
+      "FlipTriangleWinding", "Mesh.ToPointCloud"].all fun f => Gen.C01Stores.sites.any fun s => s.fn == f) = true := by
+  decide +kernel
 
 /-! ### the defect repaired by 74db58f, as a theorem about the in-place `Append` -/
 
